@@ -169,7 +169,8 @@ pub fn check_try_from_price(m: &mut Monitor, p: u128, d: u8, td: u8, prec: u8) {
                 sig.extend_from_slice(&p.to_le_bytes());
                 sig.extend_from_slice(&[d, td, prec]);
                 crate::util::nontrivial_capped(m, &sig);
-                if m.wants_sample() && truncated {
+                if m.wants_sample() && truncated && m.counter("sampled_conversions") < 3 {
+                    m.count("sampled_conversions");
                     m.sample(json!({"price": p.to_string(), "decimals": d, "token_decimals": td,
                         "precision": prec, "value": dec.value, "multiplier": dec.decimal_multiplier,
                         "unit_price": unit.to_string()}));
@@ -314,7 +315,8 @@ pub fn check_pyth(m: &mut Monitor, value: u64, exponent: i32, td: u8, prec: u8) 
             m.count("pyth_panics");
             if matches!(exp, Expect::Ok { .. }) {
                 m.violation("C26:pyth_price_value_to_decimal:rejects_representable_price", w(format!("panic: {msg}")));
-            } else if m.wants_sample() {
+            } else if m.wants_sample() && m.counter("sampled_pyth_panics") < 1 {
+                m.count("sampled_pyth_panics");
                 m.sample(w(format!("panic: {msg}")));
             }
         }
